@@ -184,8 +184,15 @@ func (q *UdpTaskQueue) convoy() {
 			}
 
 			verifYield("convoy.checked", q)
-			// CAS refs to lock out new acquireQueue and avoid time.Sleep
-			if !q.refs.CompareAndSwap(0, -1000000) {
+			// CAS refs to lock out new acquireQueue and avoid time.Sleep.
+			// The claim is taken under enqueueMu together with a second emptiness check:
+			// otherwise a producer could acquire, enqueue and release between the check
+			// above and the claim, and the queue would be retired (and its channel
+			// recycled) with a task inside.
+			q.enqueueMu.Lock()
+			claimed := len(q.ch) == 0 && len(q.overflow) == 0 && q.refs.CompareAndSwap(0, -1000000)
+			q.enqueueMu.Unlock()
+			if !claimed {
 				q.safeTimerReset(timer)
 				continue
 			}
